@@ -291,9 +291,81 @@ def array_shape_rule(ctx, repo):
                bad[0] if bad else "", disc="dec|array shape")
 
 
+# h5py: "Scalar datasets don't support chunk/filter options" -- create_dataset raises TypeError for 0-d data with any of these
+H5_FILTER_OPTIONS = {"compression", "compression_opts", "shuffle", "fletcher32", "chunks", "scaleoffset", "maxshape"}
+
+
+def dataset_options_rule(ctx, repo):
+    """C13.dsopts: every `create_dataset(name, data=...)` of the package that stores *values* (not the fixed-shape checkpoint blob) either
+    takes no chunk / filter option, or takes them only on a path that has looked at the dimensionality of the data.  Evidence scalars of
+    torch / JAX sample sets are 0-d arrays; h5py rejects filter options for them with TypeError, which the generic writer catches and
+    answers by storing str(value) -- the number comes back as text."""
+    n_calls = 0
+    for f in repo.all_functions():
+        parents = None
+        for n in walk_no_nested(f.node):
+            if not (isinstance(n, ast.Call) and isinstance(n.func, ast.Attribute) and n.func.attr == "create_dataset"):
+                continue
+            if not any(k.arg == "data" for k in n.keywords) and len(n.args) < 3:
+                continue  # created by shape (the checkpoint blob): no data whose rank could be 0
+            n_calls += 1
+            opts = {k.arg for k in n.keywords if k.arg in H5_FILTER_OPTIONS}
+            guarded = True
+            why = ""
+            spreads = [k.value for k in n.keywords if k.arg is None]
+            for sp in spreads:
+                helper = None
+                if isinstance(sp, ast.Call) and isinstance(sp.func, ast.Name):
+                    tgt = repo.resolve_name(f.module, sp.func.id, repo.function_imports(f))
+                    helper = tgt if hasattr(tgt, "node") and hasattr(tgt, "params") else None
+                if helper is None:
+                    if isinstance(sp, ast.Dict):
+                        opts |= {k_.value for k_ in sp.keys if isinstance(k_, ast.Constant) and k_.value in H5_FILTER_OPTIONS}
+                    continue
+                hp = {ch: p_ for p_ in ast.walk(helper.node) for ch in ast.iter_child_nodes(p_)}
+                for r in walk_no_nested(helper.node):
+                    if not (isinstance(r, ast.Return) and isinstance(r.value, ast.Dict)):
+                        continue
+                    ks = {k_.value for k_ in r.value.keys if isinstance(k_, ast.Constant)} & H5_FILTER_OPTIONS
+                    if not ks:
+                        continue
+                    tests, cur = [], r
+                    while cur in hp:
+                        cur = hp[cur]
+                        if isinstance(cur, ast.If):
+                            tests.append(cur.test)
+                    looks = any(isinstance(x, ast.Attribute) and x.attr in ("ndim", "shape", "size") for t_ in tests for x in ast.walk(t_))
+                    if not looks:
+                        guarded = False
+                        why = f"{helper.name}() returns {sorted(ks)} without looking at the rank of the data"
+                    opts |= ks
+            if opts and not spreads:
+                if parents is None:
+                    parents = {ch: p_ for p_ in ast.walk(f.node) for ch in ast.iter_child_nodes(p_)}
+                tests, cur = [], n
+                while cur in parents:
+                    cur = parents[cur]
+                    if isinstance(cur, ast.If):
+                        tests.append(cur.test)
+                guarded = any(isinstance(x, ast.Attribute) and x.attr in ("ndim", "shape", "size") for t_ in tests for x in ast.walk(t_))
+                why = f"options {sorted(opts)} are passed whatever the rank of the data"
+            ctx.decide(not opts or guarded, "C13.dsopts", f.ident, loc_of(f, n),
+                       "values are stored without chunk / filter options (or only after their rank was inspected): 0-d entries are written as numbers",
+                       f"create_dataset receives chunk / filter options for every numeric array, 0-d ones included ({why}): h5py raises TypeError for scalar data with such options, "
+                       "and the writer's `except TypeError` fallback then stores str(value) -- an evidence value of a torch / JAX sample set reloads as a string", disc=f"L{n_calls}")
+    ctx.floor("create_dataset(data=...) call sites", n_calls, 5)
+
+
 def run(ctx):
     repo = ctx.repo
     um = repo.module(U)
+    dataset_options_rule(ctx, repo)
+    # ---- what a file holds under /aspire_config is one configuration: the writer removes the group before it writes (the layout is flattened,
+    #      so replacing key by key keeps every key only the older configuration had, and the reader rebuilds from the union)
+    from ..report import reuse as _reuse
+    from . import c14 as _c14
+    _reuse(ctx, lambda c: _c14.run(c, shared=False), ("C14.config",), "C13file", "replace-don't-merge rule shared with C14: resume_from_file() rebuilds the instance from whatever "
+           "keys the group holds", only=lambda f: f.key.endswith("| delete"))
     codec_dispatch(ctx, repo)
     array_shape_rule(ctx, repo)
     # the namespace name a configuration stores (xp.__name__) resolves back to the same array library
@@ -694,7 +766,16 @@ MUTANTS += [
     M("torch save consumes the stored constructor arguments", _TF, "config = self.config_dict().copy()\n        data_transform = config.pop(\"data_transform\", None)", "config = self.config_dict()\n        data_transform = config.pop(\"data_transform\", None)", "C13.nomut"),
     M("from_dict stacks columns in mapping order", _S, "x = np.stack([samples[p] for p in parameters], axis=-1)", "x = np.stack(list(samples.values()), axis=-1)", "C13.dictorder"),
 ]
+MUTANTS += [
+    M("configuration rewritten over the old group instead of replacing it", "src/aspire/aspire.py", "if checkpoint_save_config:\n                    if \"aspire_config\" in h5_file:\n                        del h5_file[\"aspire_config\"]\n                    self.save_config(",
+      "if checkpoint_save_config:\n                    self.save_config(", "C13file.config"),
+]
+MUTANTS += [
+    M("numeric datasets written gzip-compressed whatever their rank", "src/aspire/utils.py", "g.create_dataset(full_key, data=encode_for_hdf5(value))", "g.create_dataset(full_key, data=encode_for_hdf5(value), compression=\"gzip\")", "C13.dsopts"),
+]
 NEUTRALS = [
+    M("arrays with at least one axis written gzip-compressed", "src/aspire/utils.py", "g.create_dataset(full_key, data=encode_for_hdf5(value))",
+      "data = encode_for_hdf5(value)\n                    if getattr(data, \"ndim\", 0) > 0 and data.size > 0:\n                        g.create_dataset(full_key, data=data, compression=\"gzip\")\n                    else:\n                        g.create_dataset(full_key, data=data)"),
     M("namespace names matched by substring, jax first", _U, "if name in {\"numpy\", \"numpy.ndarray\"}:\n            import array_api_compat.numpy as np_xp\n\n            return np_xp\n        if name in {\"jax\", \"jax.numpy\"}:\n            import jax.numpy as jnp\n\n            return jnp",
       "if \"jax\" in name:\n            import jax.numpy as jnp\n\n            return jnp\n        if \"numpy\" in name:\n            import array_api_compat.numpy as np_xp\n\n            return np_xp"),
     M("torch save splits the configuration in a helper that copies first", _TF, "config = self.config_dict().copy()\n        data_transform = config.pop(\"data_transform\", None)\n        dtype_value = config.get(\"dtype\")", "config, data_transform = self._split_config()\n        dtype_value = config.get(\"dtype\")", within="BaseTorchFlow",
